@@ -261,6 +261,11 @@ func (r *rewriter) stmt(s ast.Stmt) []ast.Stmt {
 		if r.isChan(s.X) {
 			return []ast.Stmt{r.rangeChan(s)}
 		}
+		if t := r.info.TypeOf(s.X); t != nil {
+			if _, isMap := t.Underlying().(*types.Map); isMap {
+				return []ast.Stmt{r.rangeMap(s)}
+			}
+		}
 		r.noRecv(s.X)
 		r.funcLits(s.X)
 		r.block(s.Body)
@@ -294,7 +299,7 @@ func (r *rewriter) stmt(s ast.Stmt) []ast.Stmt {
 			fatal(r.fset, s.Pos(), "unsupported: labelled statement that expands to several statements")
 		}
 		if _, isRange := s.Stmt.(*ast.RangeStmt); isRange && inner[0] != s.Stmt {
-			fatal(r.fset, s.Pos(), "unsupported: labelled range over a channel")
+			fatal(r.fset, s.Pos(), "unsupported: labelled range over a channel or map")
 		}
 		s.Stmt = inner[0]
 		return []ast.Stmt{s}
@@ -425,6 +430,42 @@ func (r *rewriter) rangeChan(s *ast.RangeStmt) ast.Stmt {
 	list = append(list, pre...)
 	list = append(list, &ast.ForStmt{Body: &ast.BlockStmt{List: body}})
 	return &ast.BlockStmt{List: list}
+}
+
+// rangeMap turns `for k, v := range m {B}` into an iteration over vsched.Keys(m)
+// (sorted under exploration), looking every entry up again so that deleted
+// entries are skipped.
+func (r *rewriter) rangeMap(s *ast.RangeStmt) ast.Stmt {
+	r.usedHooks = true
+	r.stats["range-map"]++
+	r.noRecv(s.X)
+	r.funcLits(s.X)
+	r.block(s.Body)
+	m, k, ok := r.name("M"), r.name("K"), r.name("Ok")
+	var body []ast.Stmt
+	assign := func(lhs ast.Expr, rhs ast.Expr) {
+		if lhs == nil {
+			return
+		}
+		if id, isId := lhs.(*ast.Ident); isId && id.Name == "_" {
+			return
+		}
+		if s.Tok == token.DEFINE {
+			body = append(body, define([]ast.Expr{lhs}, rhs))
+			body = append(body, &ast.AssignStmt{Lhs: []ast.Expr{ast.NewIdent("_")}, Tok: token.ASSIGN, Rhs: []ast.Expr{lhs}})
+		} else {
+			body = append(body, &ast.AssignStmt{Lhs: []ast.Expr{lhs}, Tok: token.ASSIGN, Rhs: []ast.Expr{rhs}})
+		}
+	}
+	val := r.name("V")
+	body = append(body, define([]ast.Expr{val, ok}, &ast.IndexExpr{X: m, Index: k}))
+	body = append(body, &ast.IfStmt{Cond: &ast.UnaryExpr{Op: token.NOT, X: ok}, Body: &ast.BlockStmt{List: []ast.Stmt{&ast.BranchStmt{Tok: token.CONTINUE}}}})
+	body = append(body, &ast.AssignStmt{Lhs: []ast.Expr{ast.NewIdent("_")}, Tok: token.ASSIGN, Rhs: []ast.Expr{val}})
+	assign(s.Key, k)
+	assign(s.Value, val)
+	body = append(body, s.Body.List...)
+	loop := &ast.RangeStmt{Key: ast.NewIdent("_"), Value: k, Tok: token.DEFINE, X: hook("Keys", hook("RdMap", m, r.site(s.Pos(), "map "+exprName(s.X)))), Body: &ast.BlockStmt{List: body}}
+	return &ast.BlockStmt{List: []ast.Stmt{define([]ast.Expr{m}, s.X), loop}}
 }
 
 func (r *rewriter) selectStmt(s *ast.SelectStmt) ast.Stmt {
